@@ -2,7 +2,7 @@
 # dev tool: behaviour-preserving patches (harmless/<i>/patch.diff) applied to a SCRATCH copy; every check that depends on a touched file is
 # run; a VIOLATION line would be a false alarm.  usage: tools/run_harmless.sh <dir-with-numbered-subdirs>
 cd /verif
-W=/var/tmp/walrus-seedrun
+W=${HARMW:-/var/tmp/walrus-seedrun3}
 mkdir -p $W/out
 rsync -a --delete --exclude target /repo/ $W/repo/
 export VERIF_REPO=$W/repo VERIF_OUT=$W/out VERIF_SCRATCH=$W/scratch
